@@ -52,7 +52,7 @@ def kind_of_param(p):
 
 
 # how the multi-band fitters name the sites of their link functions; refreshed from the real fitters' traces by `probe_link_names`
-LINK_TMPL = dict(poly="{n}_poly_coeff", spline="bspl_w_{n}")
+LINK_TMPL = dict(poly="{n}_poly_coeff", spline="bspl_w_{n}", model="model")
 
 
 def probe_child(payload):
@@ -88,6 +88,8 @@ def probe_child(payload):
             names = [k for k in tr if "theta" in k and k not in ("theta_g", "theta_r", "theta_i", "theta_at_wv")
                      and not k.endswith("_base") and "_auto_" not in k]
             out[kind] = names
+            trm = handlers.trace(handlers.seed(top.build_model(return_model=True), jax.random.PRNGKey(0))).get_trace()
+            out[kind + "_model_sites"] = sorted(k for k, v in trm.items() if "model" in k and v["type"] == "deterministic")
         except Exception as e:
             out[kind] = f"error {type(e).__name__}: {e}"
     return out
@@ -98,6 +100,12 @@ def probe_link_names():
     from .common import run_children
     got = run_children("c19", "probe_child", [dict()], x64=False)[0]
     note = {}
+    ms = got.pop("poly_model_sites", None)
+    got.pop("spline_model_sites", None)
+    if isinstance(ms, list) and ms:
+        # one stacked site `model`, or one site per band (`model_g`, `model_r`, `model_i` for the probe's bands)
+        LINK_TMPL["model"] = "model" if ms == ["model"] else ("model_{b}" if ms == ["model_g", "model_i", "model_r"] else LINK_TMPL["model"])
+        note["model_sites"] = ms
     for kind, names in got.items():
         if isinstance(names, list) and len(names) == 1 and "theta" in names[0]:
             LINK_TMPL[kind] = names[0].replace("theta", "{n}")
@@ -187,7 +195,12 @@ def gen_config(rng):
                 add_param(f"{p}_{b}", "plain")
             for q in nuis:
                 out.append((f"{q}_{b}", "internal" if q.endswith("_base") else "plain", ()))
-        out.append(("model", "model", ("model_dim_0", "model_dim_1", "model_dim_2")))
+        if "{b}" in LINK_TMPL["model"]:
+            for b in bands:
+                mn = LINK_TMPL["model"].format(b=b)
+                out.append((mn, "model", (f"{mn}_dim_0", f"{mn}_dim_1")))
+        else:
+            out.append(("model", "model", ("model_dim_0", "model_dim_1", "model_dim_2")))
     # unique names, random order
     seen, uniq = set(), []
     for t in out:
